@@ -627,4 +627,40 @@ def fam_small_rules(ctx):
     ctx.obligation("correspondence split-scalar: the Split emitted for SplitToSequence with a scalar split = Coq split_scalar (symbolic axis refused)", bad == [])
 
 
-FAMILIES = [fam_coverage, fam_size, fam_merge, fam_concat_zero, fam_scatter, fam_small_rules]
+# ============================================================================= _ir_utils.broadcast_keeps_rank
+def fam_keeps_rank(ctx):
+    import onnx_ir as ir
+
+    from onnxscript.rewriter import _ir_utils as iu
+    fn = getattr(iu, "broadcast_keeps_rank", None)
+    if fn is None:
+        return            # the helper does not exist in this tree: the coverage obligation reports the stale entry
+    rng = ctx.rng
+    pool = [0, 1, 2, "N", "M", None]
+
+    def mk(s, name):
+        if s == "novalue":
+            return None
+        return ir.Value(name=name, shape=None if s is None else ir.Shape([d if isinstance(d, int) else ir.SymbolicDim(d) for d in s]))
+
+    pairs = [("novalue", [2]), (None, [2]), ([], None), ([3], None), ([1, 3], None), ([1, 3], "novalue"), ([1, 3], [3]), ([1, 3], ["N", 3]), (["N", "M", 2], [1, 2])]
+    for _ in range(120 if ctx.tier == "quick" else 1000):
+        v = None if rng.random() < 0.08 else [rng.choice(pool) for _ in range(rng.randint(0, 4))]
+        r = None if rng.random() < 0.15 else [rng.choice(pool) for _ in range(rng.randint(0, 4))]
+        pairs.append((v, r))
+    lits, meta = [], []
+    for v, r in pairs:
+        obs = bool(fn(mk(v, "v"), mk(r, "r")))
+        cv = None if v == "novalue" else v
+        cr = None if r == "novalue" else r
+        lits.append(f"({_oshape(cv)}, {_oshape(cr)}, {cbool(obs)})")
+        meta.append((v, r, obs))
+        ctx.case(("broadcast-keeps-rank", None if cv is None else len(cv), None if cr is None else len(cr), obs))
+    val = _eval_bad(ctx, ["OV.Shape.SymDim", "OV.Shape.Extra"], f"Definition cases : list bkr_case := {clist(lits)}.\nEval vm_compute in (disagreeing bkr_agrees 0 cases).", "broadcast-keeps-rank")
+    bad = common.parse_nat_list(val) if val is not None else None
+    for k in bad or []:
+        ctx.tie_broken("correspondence", "broadcast-keeps-rank", f"(value shape, reference shape, answer) = {meta[k]}: Coq bkr_check differs")
+    ctx.obligation("correspondence broadcast-keeps-rank: real _ir_utils.broadcast_keeps_rank = Coq bkr_check (ranks only) on every generated pair", bad == [])
+
+
+FAMILIES = [fam_coverage, fam_size, fam_merge, fam_concat_zero, fam_scatter, fam_small_rules, fam_keeps_rank]
